@@ -117,6 +117,8 @@ def call_method(I, recv, name, args, kwargs):
 def value_attr(I, v, name):
     k = kind_of(v)
     if isinstance(v, SArr):
+        if v.kind == "ndarray" and name in ("index", "iloc", "loc", "columns"):
+            raise SymRaise(ExcVal(ExtClass("builtins.AttributeError"), (name,)))       # numpy arrays have no pandas accessors
         if name == "shape":
             return SList(list(v.shape), "tuple")
         if name == "ndim":
